@@ -51,6 +51,11 @@ var c07Kinds = map[string]c07Kind{
 	"filter-error-for":   {src: "{% for q in a | fail %}x{% endfor %}", names: "verif-sentinel", cause: "sentinel"},
 	"division-by-zero":   {src: "{{ 1 | divided_by:%NL% 0 }}", names: "zero"},
 	"type-error":         {src: "{{ \"a\" |%NL% plus: 1 }}", cause: "typeerror"},
+	"type-error-date":    {src: "{{ \"not a date\" |%NL% date: \"%Y\" }}", cause: "typeerror"},
+	"type-error-slice":   {src: "{{ \"abc\" | slice:%NL% \"x\" }}", cause: "typeerror"},
+	"type-error-assign":  {src: "{% assign v = \"x\" |%NL% times: 2 %}", cause: "typeerror"},
+	"type-error-if":      {src: "{% if \"a\" | plus: 1 %}x{% endif %}", cause: "typeerror"},
+	"offset-not-int":     {src: "{% for q in (1..2) offset: \"x\" %}x{% endfor %}"},
 	"strict-undefined":   {src: "{{ undefined_name }}", strict: true},
 	"break-outside":      {src: "{% break %}", needsLoop: "none"},
 	"continue-outside":   {src: "{% continue %}", needsLoop: "none"},
